@@ -1,3 +1,4 @@
+import RsyncModel.RecvTie
 import RsyncModel.MapFile
 import RsyncModel.PureTie
 import RsyncModel.RoundTripHonest
@@ -160,5 +161,21 @@ theorem source_flush_is_forward (offset lastMatch end_ : Int) (bl : Int32)
     (h : Gen.Pure.flushCond (offset - lastMatch) bl end_ offset false = true) :
     lastMatch + (chunkSize : Int) ≤ offset - bl.toInt :=
   PureTie.flush_target_after_last_match offset lastMatch end_ bl h
+
+
+/-- **the receiver's token loop as the source has it is the model's `recvTokens`** (receiver.go
+`receiveData` from `offset := 0` to the end of the loop, and token.go `recvToken`, both translated
+from /repo on every run: the connection is a byte list that is consumed, the pending file a byte list
+that grows, the basis a byte list read at offsets). For every input stream — valid or not —, every
+validated header and every basis (or none): the same bytes are written and the same input is left
+unread as in the model about which `receiver_denotes` and `roundtrip` are proved; the source returns
+an error exactly where the model fails; it never panics, and the loop ends within `len(input)+1`
+passes. -/
+theorem source_receiver_loop (h : PureTie.Head32) (hok : h.ok) (cs : Nat) (basis : Bytes) (hasBasis : Bool) (inp acc : Bytes) :
+    Gen.Pure.recvLoop inp basis hasBasis h.count h.bl h.rem acc =
+      match recvTokens (h.toHead cs) (if hasBasis then some basis else none) inp acc with
+      | .ok (c, r) => .ok (c, r)
+      | .error _ => .err :=
+  RecvTie.recvLoop_tied h hok cs basis hasBasis inp acc
 
 end C02
